@@ -2,6 +2,7 @@
    equal values, and which runs ampdel keeps. *)
 From Coq Require Import QArith.Qabs.
 From CNV Require Import Base.Prelude Base.Str Gen.SegfilterDefaults Model.Segfilters Spec.Segfilters.
+From CNV Require Base.QNum Model.Descriptives Proofs.QNumLemmas.
 From CNV Require Import Proofs.SegfiltersRuns Proofs.SegfiltersKeys.
 
 (* ------------------------------------------------------------- sums, means *)
@@ -303,29 +304,49 @@ Qed.
 
 Let Pf (p : Q * Q) : Prop := P (fst p).
 
-Lemma Forall_ins_pair x l : Pf x -> Forall Pf l -> Forall Pf (ins_pair x l).
+Lemma Forall_pins x l : Pf x -> Forall Pf l -> Forall Pf (Descriptives.pins x l).
 Proof.
-  intros Hx. induction 1 as [|y t Hy Ht IH]; cbn [ins_pair]; [repeat constructor; exact Hx|].
-  destruct (Qltb (fst y) (fst x)); repeat constructor; assumption.
+  intros Hx. induction 1 as [|y t Hy Ht IH]; cbn [Descriptives.pins]; [repeat constructor; exact Hx|].
+  destruct (QNum.qle_b (fst x) (fst y)); repeat constructor; assumption.
 Qed.
 
-Lemma Forall_sort_pairs l : Forall Pf l -> Forall Pf (sort_pairs l).
+Lemma Forall_psort l : Forall Pf l -> Forall Pf (Descriptives.psort l).
 Proof.
-  induction 1 as [|y t Hy Ht IH]; cbn [sort_pairs fold_right]; [constructor|].
-  apply Forall_ins_pair; assumption.
+  induction 1 as [|y t Hy Ht IH]; cbn [Descriptives.psort fold_right]; [constructor|].
+  apply Forall_pins; assumption.
 Qed.
 
-Lemma ins_pair_nonempty x l : ins_pair x l <> [].
-Proof. destruct l as [|y t]; cbn [ins_pair]; [discriminate|]. destruct (Qltb (fst y) (fst x)); discriminate. Qed.
+Lemma pins_nonempty x l : Descriptives.pins x l <> [].
+Proof. destruct l as [|y t]; cbn [Descriptives.pins]; [discriminate|]. destruct (QNum.qle_b (fst x) (fst y)); discriminate. Qed.
+
+Lemma argmax_from_P best ps : Pf best -> Forall Pf ps -> Pf (Descriptives.argmax_from best ps).
+Proof.
+  intros Hb H. revert best Hb. induction H as [|p t Hp Ht IH]; intros best Hb; cbn [Descriptives.argmax_from]; [exact Hb|].
+  destruct (QNum.qlt_b (snd best) (snd p)); apply IH; assumption.
+Qed.
+
+Lemma wmed_walk_d_P mid tol : forall ps acc d, Forall Pf ps -> P d -> P (wmed_walk_d mid tol acc ps d).
+Proof.
+  induction ps as [|[v w] rest IH]; intros acc d H Hd; cbn [wmed_walk_d]; [exact Hd|].
+  inversion H as [|? ? Hv Hrest]; subst. cbn [Pf fst] in Hv.
+  destruct (QNum.qle_b _ _).
+  - destruct rest as [|[v2 w2] rest']; [exact Hv|].
+    destruct (QNum.qle_b _ _); [|exact Hv].
+    inversion Hrest as [|? ? Hv2 _]; subst. cbn [Pf fst] in Hv2.
+    unfold QNum.qdiv, QNum.qadd. apply P_proper with ((v + v2) / 2)%Q.
+    + rewrite !Qred_correct. reflexivity.
+    + apply P_mean; assumption.
+  - apply IH; assumption.
+Qed.
 
 Lemma wmedian_sorted_P ps : ps <> [] -> Forall Pf ps -> P (wmedian_sorted ps).
 Proof.
   intros NE H. unfold wmedian_sorted.
-  assert (Ha : Forall P (map fst ps)) by (rewrite Forall_map; exact H).
-  assert (Hd : P (hd 0%Q (map fst ps))).
-  { destruct ps as [|p t]; [contradiction NE; reflexivity|]. inversion H; subst. assumption. }
-  destruct (existsb _ _); [apply P_nth; assumption|].
-  destruct (_ && _); [apply P_mean2|]; apply P_nth; assumption.
+  destruct ps as [|p t]; [contradiction NE; reflexivity|].
+  inversion H as [|? ? Hp Ht]; subst.
+  destruct (existsb _ _).
+  - apply (argmax_from_P p t Hp Ht).
+  - apply wmed_walk_d_P; [exact H|]. cbn [map hd]. exact Hp.
 Qed.
 
 Lemma wmedian_pairs_P ps m : Forall Pf ps -> wmedian_pairs ps = Some m -> P m.
@@ -333,9 +354,9 @@ Proof.
   intros H E. destruct ps as [|[a w] [|q t]]; cbn [wmedian_pairs] in E.
   - discriminate.
   - injection E as <-. inversion H; subst. assumption.
-  - injection E as <-. apply (wmedian_sorted_P (sort_pairs ((a, w) :: q :: t))).
-    + cbn [sort_pairs fold_right]. apply ins_pair_nonempty.
-    + apply (Forall_sort_pairs ((a, w) :: q :: t)). exact H.
+  - injection E as <-. apply (wmedian_sorted_P (Descriptives.psort ((a, w) :: q :: t))).
+    + cbn [Descriptives.psort fold_right]. apply pins_nonempty.
+    + apply (Forall_psort ((a, w) :: q :: t)). exact H.
 Qed.
 
 Lemma wmedian_pairs_some ps : ps <> [] -> exists m, wmedian_pairs ps = Some m.
@@ -355,30 +376,22 @@ Proof.
   eapply wmedian_pairs_P; [|exact E]. apply Forall_combine_fst. exact H.
 Qed.
 
-Lemma Forall_ins_q x l : P x -> Forall P l -> Forall P (ins_q x l).
-Proof.
-  intros Hx. induction 1 as [|y t Hy Ht IH]; cbn [ins_q]; [repeat constructor; exact Hx|].
-  destruct (Qltb y x); repeat constructor; assumption.
-Qed.
-
-Lemma Forall_sort_q l : Forall P l -> Forall P (sort_q l).
-Proof.
-  induction 1 as [|y t Hy Ht IH]; cbn [sort_q fold_right]; [constructor|].
-  apply Forall_ins_q; assumption.
-Qed.
-
 Lemma median_P l : l <> [] -> Forall P l -> P (median l).
 Proof.
-  intros NE H. unfold median.
-  pose proof (Forall_sort_q l H) as Hs.
-  assert (Hd : P (hd 0%Q (sort_q l))).
-  { destruct l as [|x t]; [contradiction NE; reflexivity|].
-    cbn [sort_q fold_right]. fold (sort_q t).
-    pose proof (Forall_sort_q (x :: t) H) as H'. cbn [sort_q fold_right] in H'. fold (sort_q t) in H'.
-    destruct (ins_q x (sort_q t)) eqn:E; [|inversion H'; subst; assumption].
-    exfalso. destruct (sort_q t) as [|y t']; cbn [ins_q] in E; [discriminate|].
-    destruct (Qltb y x); discriminate. }
-  destruct (Nat.even _); [apply P_mean2|]; apply P_nth; assumption.
+  intros NE H. unfold median, QNum.median.
+  assert (Hs : Forall P (QNum.qsort l)).
+  { eapply Permutation_Forall; [apply Permutation_sym, QNumLemmas.qsort_perm|exact H]. }
+  assert (Len : length (QNum.qsort l) = length l) by apply QNumLemmas.qsort_length.
+  assert (Pos : (0 < length l)%nat) by (destruct l; [contradiction NE; reflexivity|cbn; lia]).
+  assert (Nth : forall i, (i < length (QNum.qsort l))%nat -> P (QNum.nthq i (QNum.qsort l))).
+  { intros i Hi. unfold QNum.nthq. rewrite Forall_forall in Hs. apply Hs. apply nth_In. exact Hi. }
+  unfold QNum.median_sorted. rewrite Len.
+  destruct (Nat.even (length l)) eqn:Ev.
+  - pose proof (QNumLemmas.even_half_true _ Ev) as E2.
+    apply P_proper with ((QNum.nthq (length l / 2 - 1) (QNum.qsort l) + QNum.nthq (length l / 2) (QNum.qsort l)) / 2)%Q.
+    + symmetry. apply Qred_correct.
+    + apply P_mean; apply Nth; rewrite Len; lia.
+  - pose proof (QNumLemmas.even_half_false _ Ev) as E2. apply Nth. rewrite Len. lia.
 Qed.
 
 (* the cn of the row that replaces a non-empty run *)
